@@ -112,7 +112,7 @@ func c12Check(c MetricCase) (r evid.Result) {
 
 func c12Gen(t *rapid.T) MetricCase {
 	var c MetricCase
-	d := datagen.GenMetricDataN(t, 30, false, true, false, 2, 6)
+	d := datagen.GenMetricDataN(t, 30, rapid.IntRange(0, 2).Draw(t, "ambiguous-labels") == 0, true, false, 2, 6)
 	opts := datagen.RangeOpts{KeepStage: true, NoOffset: true, Wide: true, Funcs: []string{"count_over_time", "bytes_over_time", "sum_over_time", "max_over_time"}}
 	// % and ^ amplify a last-bit difference of an operand without bound next to their
 	// discontinuities; they are generated over integer-valued (exactly computed) sides only.
